@@ -617,7 +617,7 @@ def main(argv) -> int:
         job["refs"] = refs
         job["deadline"] = chk.t0 + budget * share
         job["min_slice"] = (
-            {"explore": 25.0, "sample": 12.0, "crash": 20.0}[job["type"]] if quick else 30.0
+            {"explore": 40.0, "sample": 20.0, "crash": 20.0}[job["type"]] if quick else 30.0
         )
         jobs.append(job)
 
